@@ -9,8 +9,13 @@ Attributes member is written as, which attributes make a simple type 'not defaul
 get a restriction), where a choice group is placed in the sequence, how `use` is derived,
 which text a Decimal / Boolean is written as, which xsi:nil values mean nil.
 
-Fail closed: each targeted statement must have exactly the recognised shape; anything else
-raises TranslateError and nothing is written."""
+Fail closed: each targeted statement must have the recognised meaning; anything else raises
+TranslateError and nothing is written.  Where behaviour-preserving rewrites are to be expected the
+comparison is made after normalisation, not on the text: a loop over a module-level constant table
+is unrolled (loop variables replaced by the constants, getattr(e, 'x') read as e.x, locals bound
+once to a plain read inlined); the value a statement writes is computed symbolically through local
+assignments, if / else and early returns, and through private helpers of the same module (inlined);
+a condition on bool(a.nillable) is compiled to its truth table."""
 import ast, os, sys, importlib
 from .pyexpr import TranslateError, find_function, attr_chain
 
@@ -91,8 +96,202 @@ def strip_doc(body):
     return [s for s in body if not (isinstance(s, ast.Expr) and isinstance(s.value, ast.Constant) and isinstance(s.value.value, str))]
 
 
+# ------------------------------------------------------------------ normalisation (behaviour-preserving rewrites)
+import copy
+
+
+class _Subst(ast.NodeTransformer):
+    """replace loads of the given local names by expressions"""
+
+    def __init__(self, env):
+        self.env = env
+
+    def visit_Name(self, n):
+        if isinstance(n.ctx, ast.Load) and n.id in self.env:
+            return copy.deepcopy(self.env[n.id])
+        return n
+
+
+def subst(node, env):
+    return _Subst(env).visit(copy.deepcopy(node))
+
+
+class _Fold(ast.NodeTransformer):
+    """getattr(e, 'name') -> e.name;  x in [a, b] -> x in (a, b)"""
+
+    def visit_Call(self, n):
+        self.generic_visit(n)
+        if isinstance(n.func, ast.Name) and n.func.id == 'getattr' and len(n.args) == 2 and not n.keywords \
+                and isinstance(n.args[1], ast.Constant) and isinstance(n.args[1].value, str) and n.args[1].value.isidentifier():
+            return ast.Attribute(n.args[0], n.args[1].value, ast.Load())
+        return n
+
+    def visit_Compare(self, n):
+        self.generic_visit(n)
+        if len(n.ops) == 1 and isinstance(n.ops[0], (ast.In, ast.NotIn)) and isinstance(n.comparators[0], ast.List):
+            n.comparators[0] = ast.Tuple(n.comparators[0].elts, ast.Load())
+        return n
+
+
+def fold(node):
+    return _Fold().visit(copy.deepcopy(node))
+
+
+def _pure(e):
+    """an expression whose value does not depend on when it is evaluated inside the emitters: names,
+    constants, attribute reads, getattr with a constant name"""
+    if isinstance(e, (ast.Name, ast.Constant)):
+        return True
+    if isinstance(e, ast.Attribute):
+        return _pure(e.value)
+    if isinstance(e, ast.Call) and isinstance(e.func, ast.Name) and e.func.id == 'getattr' and len(e.args) == 2 and not e.keywords:
+        return _pure(e.args[0]) and isinstance(e.args[1], ast.Constant)
+    return False
+
+
+def _assigned(stmts):
+    out = []
+    for st in stmts:
+        for n in ast.walk(st):
+            if isinstance(n, ast.Name) and isinstance(n.ctx, (ast.Store, ast.Del)):
+                out.append(n.id)
+    return out
+
+
+def inline_locals(stmts):
+    """`x = <pure expression>` bound once in a straight-line block: the later statements read the
+    expression instead (the binding is dropped)"""
+    stmts = list(stmts)
+    i = 0
+    while i < len(stmts):
+        st = stmts[i]
+        if isinstance(st, ast.Assign) and len(st.targets) == 1 and isinstance(st.targets[0], ast.Name) and _pure(st.value):
+            x = st.targets[0].id
+            rest = stmts[i + 1:]
+            reads = [n.id for n in ast.walk(st.value) if isinstance(n, ast.Name)]
+            if x not in _assigned(rest) and x not in _assigned(stmts[:i]) and not any(r in _assigned(rest) for r in reads) and x not in reads:
+                stmts = stmts[:i] + [subst(r, {x: st.value}) for r in rest]
+                continue
+        i += 1
+    return stmts
+
+
+def module_constant(tree, name):
+    """the value of a module-level name bound exactly once to a literal tuple / list"""
+    hits = [st for st in tree.body if isinstance(st, ast.Assign) and any(isinstance(t, ast.Name) and t.id == name for t in st.targets)]
+    need(len(hits) == 1 and len(hits[0].targets) == 1, 'module constant %s is not bound exactly once' % name)
+    rebound = [n for n in ast.walk(tree) if isinstance(n, ast.Name) and n.id == name and isinstance(n.ctx, (ast.Store, ast.Del))]
+    need(len(rebound) == 1, 'module constant %s is bound again somewhere' % name)
+    v = hits[0].value
+    need(isinstance(v, (ast.Tuple, ast.List)), 'module constant %s is not a literal tuple / list' % name)
+    return v
+
+
+def unroll(stmts, tree):
+    """`for a, b in TABLE:` over a module-level literal table of constants: one copy of the body per
+    row, the loop variables replaced by the constants of the row"""
+    out = []
+    for st in stmts:
+        if isinstance(st, ast.For) and not st.orelse and isinstance(st.iter, ast.Name):
+            table = module_constant(tree, st.iter.id)
+            tgt = st.target.elts if isinstance(st.target, (ast.Tuple, ast.List)) else [st.target]
+            need(all(isinstance(t, ast.Name) for t in tgt), 'loop over %s: unrecognised target' % st.iter.id)
+            names = [t.id for t in tgt]
+            need(not any(n in _assigned(st.body) for n in names), 'loop over %s: a loop variable is rebound in the body' % st.iter.id)
+            for row in table.elts:
+                cells = row.elts if isinstance(st.target, (ast.Tuple, ast.List)) else [row]
+                if isinstance(st.target, (ast.Tuple, ast.List)):
+                    need(isinstance(row, (ast.Tuple, ast.List)), 'loop over %s: a row is not a tuple' % st.iter.id)
+                need(len(cells) == len(names) and all(isinstance(c, ast.Constant) for c in cells),
+                     'loop over %s: a row does not hold one constant per loop variable' % st.iter.id)
+                env = dict(zip(names, cells))
+                out.extend(inline_locals([fold(subst(b, env)) for b in st.body]))
+        else:
+            out.append(st)
+    return out
+
+
+def value_of(stmts, env, tree, depth=0):
+    """symbolic value of a straight-line block that ends in `return e` (or, for a block that is
+    not a function body, of nothing): assignments of local names, `if c: x = a else: x = b`,
+    `if c: return a` followed by `return b`, and calls of private module-level helpers with
+    positional arguments (inlined).  Returns (env, returned expression or None)."""
+    env = dict(env)
+    stmts = strip_doc(stmts)
+    for i, st in enumerate(stmts):
+        if isinstance(st, ast.Assign) and len(st.targets) == 1 and isinstance(st.targets[0], ast.Name):
+            env[st.targets[0].id] = expr_of(st.value, env, tree, depth)
+        elif isinstance(st, ast.Return):
+            need(st.value is not None, 'helper returns nothing')
+            return env, expr_of(st.value, env, tree, depth)
+        elif isinstance(st, ast.If):
+            test = expr_of(st.test, env, tree, depth)
+            e1, r1 = value_of(st.body, env, tree, depth)
+            if r1 is not None and not st.orelse:
+                e2, r2 = value_of(stmts[i + 1:], env, tree, depth)
+                need(r2 is not None, 'a branch returns and the other does not')
+                return env, ast.IfExp(test, r1, r2)
+            e2, r2 = value_of(st.orelse, env, tree, depth)
+            if r1 is not None or r2 is not None:
+                need(r1 is not None and r2 is not None, 'a branch returns and the other does not')
+                return env, ast.IfExp(test, r1, r2)
+            for k in set(e1) | set(e2):
+                a, b = e1.get(k), e2.get(k)
+                if a is None or b is None:
+                    raise TranslateError('local %s is bound in one branch only' % k)
+                if dump(a) != dump(b):
+                    env[k] = ast.IfExp(test, a, b)
+        else:
+            raise TranslateError('unrecognised statement in a value computation: %s' % dump(st)[:160])
+    return env, None
+
+
+def expr_of(e, env, tree, depth=0):
+    e = fold(subst(e, env))
+    # a call of a private helper of the same module, positional arguments only: its value
+    if isinstance(e, ast.Call) and isinstance(e.func, ast.Name) and e.func.id.startswith('_') and not e.keywords and depth < 3:
+        fns = [st for st in tree.body if isinstance(st, ast.FunctionDef) and st.name == e.func.id]
+        if len(fns) == 1 and e.func.id not in ('_to_schema_literal',):
+            fn = fns[0]
+            a = fn.args
+            need(not (a.vararg or a.kwarg or a.kwonlyargs or a.defaults or a.posonlyargs) and len(a.args) == len(e.args)
+                 and not fn.decorator_list, 'helper %s: unrecognised signature' % fn.name)
+            need(all(_pure(x) for x in e.args), 'helper %s is called with an argument that is not a plain read' % fn.name)
+            _, r = value_of(fn.body, {p.arg: x for p, x in zip(a.args, e.args)}, tree, depth + 1)
+            need(r is not None, 'helper %s does not return a value' % fn.name)
+            return r
+    return e
+
+
+def truth_table(test, subject):
+    """the value of a condition over bool(<subject>) in {True, False}: (for True, for False).
+    Recognised: subject, bool(subject), not e, e == / != / is / is not True / False"""
+    def ev(n, b):
+        if dump(n) == dump(subject):
+            return b
+        if isinstance(n, ast.Call) and isinstance(n.func, ast.Name) and n.func.id == 'bool' and len(n.args) == 1 and not n.keywords:
+            return ev(n.args[0], b)
+        if isinstance(n, ast.UnaryOp) and isinstance(n.op, ast.Not):
+            return not ev(n.operand, b)
+        if isinstance(n, ast.Compare) and len(n.ops) == 1 and isinstance(n.comparators[0], ast.Constant) \
+                and isinstance(n.comparators[0].value, bool):
+            # the left operand must be a bool for == / is to mean what they say: only bool(...) or not ...
+            l = n.left
+            need((isinstance(l, ast.Call) and isinstance(l.func, ast.Name) and l.func.id == 'bool') or
+                 (isinstance(l, ast.UnaryOp) and isinstance(l.op, ast.Not)),
+                 'condition compares something that is not a bool with True / False: %s' % dump(n)[:120])
+            v = ev(l, b)
+            c = n.comparators[0].value
+            if isinstance(n.ops[0], (ast.Eq, ast.Is)):
+                return v == c
+            if isinstance(n.ops[0], (ast.NotEq, ast.IsNot)):
+                return v != c
+        raise TranslateError('unrecognised condition: %s' % dump(n)[:160])
+    return ev(test, True), ev(test, False)
+
+
 # ------------------------------------------------------------------ complex_add
-def tr_complex_add(fn, out):
+def tr_complex_add(fn, out, tree=None):
     loops = [s for s in fn.body if isinstance(s, ast.For) and dump(s.iter) == dump(ast.parse('type_info.items()').body[0].value)]
     need(len(loops) == 1, 'complex_add: expected exactly one loop over type_info.items()')
     loop = loops[0]
@@ -121,11 +320,16 @@ def tr_complex_add(fn, out):
             op, l, r = cmp_parts(st.test, 'maxOccurs condition')
             need(attr_chain(l) == ['a', 'max_occurs'], 'maxOccurs condition does not test a.max_occurs')
             c = int_const(r, 'maxOccurs condition')
-            need(not st.orelse and len(st.body) == 3
-                 and same(st.body[0], 'val = a.max_occurs')
-                 and same(st.body[1], "if val in (D('inf'), float('inf')):\n    val = 'unbounded'\nelse:\n    val = str(val)")
-                 and same(st.body[2], "member.set('maxOccurs', val)"),
-                 'maxOccurs: unrecognised body')
+            # the value written: whatever locals / private helpers compute it, it must be
+            # 'unbounded' if a.max_occurs in (D('inf'), float('inf')) else str(a.max_occurs)
+            need(not st.orelse and st.body and isinstance(st.body[-1], ast.Expr) and isinstance(st.body[-1].value, ast.Call)
+                 and same(st.body[-1].value.func, 'member.set') and len(st.body[-1].value.args) == 2 and not st.body[-1].value.keywords
+                 and const_str(st.body[-1].value.args[0], 'maxOccurs') == 'maxOccurs', 'maxOccurs: unrecognised body')
+            env, r = value_of(st.body[:-1], {}, tree)
+            need(r is None, 'maxOccurs: the body returns')
+            written = expr_of(st.body[-1].value.args[1], env, tree)
+            need(same(written, "'unbounded' if a.max_occurs in (D('inf'), float('inf')) else str(a.max_occurs)"),
+                 'maxOccurs: the value written is not unbounded / str(a.max_occurs): %s' % dump(written)[:200])
             t = _ECMP[op]
             found['max'] = t % {'a': 'mx', 'b': '(Fin %s)' % zlit(c)} if '%(a)s' in t else t % ('mx', '(Fin %s)' % zlit(c))
         elif "'default'" in d:
@@ -135,18 +339,16 @@ def tr_complex_add(fn, out):
             LITERAL_SITES.append(('member default', d2))
             found['default'] = 'has_default'
         elif "'nillable'" in d:
-            op, l, r = cmp_parts(st.test, 'nillable condition')
-            need(same(l, 'bool(a.nillable)'), 'nillable condition does not test bool(a.nillable)')
-            need(isinstance(r, ast.Constant) and isinstance(r.value, bool), 'nillable condition: expected True/False')
-            need(op in ('eq', 'ne'), 'nillable condition: expected == or !=')
+            # the condition as a function of n = bool(a.nillable), whichever way it is spelled
+            tt = truth_table(st.test, ast.parse('a.nillable').body[0].value)
             need(len(st.body) == 1 and not st.orelse and isinstance(st.body[0], ast.Expr), 'nillable: unrecognised body')
             call = st.body[0].value
             need(isinstance(call, ast.Call) and same(call.func, 'member.set') and len(call.args) == 2
                  and const_str(call.args[0], 'nillable') == 'nillable', 'nillable: unrecognised body')
             val = const_str(call.args[1], 'nillable value')
             need(val in ('true', 'false', '1', '0'), 'nillable: written value %r is not an xs:boolean literal' % val)
-            eq = '(Bool.eqb n %s)' % ('true' if r.value else 'false')
-            found['nillable'] = eq if op == 'eq' else '(negb %s)' % eq
+            found['nillable'] = {(True, False): '(negb (Bool.eqb n false))', (False, True): '(Bool.eqb n false)',
+                                 (True, True): 'true', (False, False): 'false'}[tt]
             found['nillable_value'] = 'true' if val in ('true', '1') else 'false'
         elif 'xml_choice_group' in d:
             if same(st, "if a.xml_choice_group is None:\n    sequence.append(member)\nelse:\n"
@@ -234,7 +436,7 @@ def tr_range(tree, out):
     need(g.name == '_get_range_restriction_tag' and same(gb[0], 'restriction = simple_get_restriction_tag(document, cls)')
          and same(gb[1], 'if restriction is None:\n    return') and same(gb[-2], '_get_additional_restrictions(prot, restriction, cls)')
          and same(gb[-1], 'return restriction'), '_get_range_restriction_tag: unrecognised frame')
-    pairs = [facet_if(s, 'T', '_get_range_restriction_tag') for s in gb[2:-2]]
+    pairs = [facet_if(s, 'T', '_get_range_restriction_tag') for s in unroll(gb[2:-2], tree)]
     need(len(set(p[0] for p in pairs)) == len(pairs), '_get_range_restriction_tag: an attribute is written twice')
     out.append('(** Tget_range_restriction_tag: attribute -> facet element, in the order written *)')
     out.append('Definition range_facets : list (rattr * ftag) := [%s].' % '; '.join('(%s, %s)' % (RATTR[a], FTAG[t]) for a, t in pairs))
@@ -412,7 +614,7 @@ def generate(repo):
     del LITERAL_SITES[:]
     out = ['(** GENERATED by harness/translate/xsdemit.py from the working tree of Spyne; do not edit. *)',
            'From SpyneV Require Import Base.Prelude Base.Ext C06.Syntax.', 'Open Scope Z_scope.', '']
-    tr_complex_add(find_function(tree, ['complex_add']), out)
+    tr_complex_add(find_function(tree, ['complex_add']), out, tree)
     tr_range(tree, out)
     tr_unicode(tree, out)
     tr_simple(tree, out)
